@@ -661,6 +661,38 @@ def from_files_cases(cx):
             cx.ob("C18.from-files", not problems, f"MFASystem.{meth}", inp, "; ".join(problems))
 
 
+def two_readers_cases(cx):
+    """two parameter readers alive at the same time (one lenient, one strict; made in either order): each hands ITS OWN flags to the
+    importer - reader settings are per reader, not shared through the class"""
+    for rc, sheet_kw in (("CSVParameterReader", {}), ("ExcelParameterReader", {"parameter_sheets": {"p": "s1"}})):
+        for first in ((True, True), (False, False), (True, False)):
+            second = tuple(not x for x in first) if first[0] == first[1] else (False, True)
+            w = new_world(cx)
+            it = w.it
+            files = {"p.f": {"kind": "param", "sheets": [("s1", None), ("s2", None)]}}
+            calls = []
+            it.hooks.update(file_models(files, calls))
+            ConverterStub.log = []
+            it.hooks["DataFrameToFlodymDataConverter"] = ConverterStub
+            inp = {"reader": rc, "first_reader_flags": list(first), "second_reader_flags": list(second), "read_order": "first, second, first"}
+
+            def go():
+                mk = lambda fl: it.construct(cx.prog.cls(rc), [], dict(parameter_files={"p": "p.f"}, allow_missing_values=fl[0], allow_extra_values=fl[1], **sheet_kw))
+                r1 = mk(first)
+                r2 = mk(second)
+                ds = w.dimset(("a", "t"))
+                for r in (r1, r2, r1):
+                    it.call_method(r, "read_parameter_values", "p", ds)
+            k, r = run_guarded(go)
+            if k != "ok":
+                cx.ob("C18.from-files", False, f"{rc}.read_parameter_values", inp, f"reading ended with {k}: {getattr(r, 'msg', r)!s:.150}")
+                continue
+            got = [(gm, ge) for _, _, gm, ge in ConverterStub.log]
+            want = [first, second, first]
+            cx.ob("C18.from-files", got == want, f"{rc}.read_parameter_values", inp,
+                  f"the importer was handed the flags {got}; the readers were built with {want} (settings of one reader reach another)")
+
+
 def field_consumption(prog, rep, cx):
     """every declared field of a definition class is read by the builder that consumes it"""
     rid = "C18.definition-fields-consumed"
@@ -720,6 +752,7 @@ def run(prog, rep):
     pipeline_cases(cx)
     file_cases(cx)
     from_files_cases(cx)
+    two_readers_cases(cx)
     field_consumption(prog, rep, cx)
     for (rule, qual), (count, inp, msg) in sorted(cx.fail.items()):
         module, line, sig = _locate(prog, qual)
